@@ -405,3 +405,91 @@ def run_c19(script, rng, summary):
         return {"what": f"the constraints listed as conflicting ({listed}) together with the basic rules admit a schedule",
                 "script2": script2}
     return None
+
+
+# ---------------------------------------------------------------------------------- C05
+def run_c05(script, rng, summary, driver=None):
+    """completeness search: enumerate schedules that satisfy the documented meaning (the Lean spec
+    twins, as formulas over the primary variables) and pin each one in the real constraint system"""
+    from harness import sem, props as P
+    real = pslib.Real()
+    real.run(script)
+    driver.reset()
+    for d in script:
+        if pslib.to_line(d) is not None:
+            driver.send(pslib.to_line(d))
+    s = real.initialize()
+    base = list(s._solver.assertions())
+    _, lean_lines = driver.send_multi("(initialize (debug false))")
+    _, spec_lines = driver.send_multi("(spec ALL)")
+    sub = dict(P.subst_for(real))
+    sub.update(z3walk.token_alignment([z3walk.sx(a) for a in base], [l.split("\t", 1)[1] for l in lean_lines]))
+    b = sem.Builder(sem.sorts_of(base), sub)
+    try:
+        spec = [b.fml(sem.parse_sexp(l)) for l in spec_lines]
+    except Exception as e:  # noqa: BLE001
+        count(summary, "run_c05_spec_unbuildable")
+        return None
+    if any(z3.is_quantifier(a) for a in base):
+        return None
+    H = real.problem.horizon or 12
+    spec_solver = z3.Solver()
+    spec_solver.set("timeout", 10000)
+    spec_solver.add(spec)
+    tasks = list(real.tasks.values())
+    for t in tasks:
+        spec_solver.add(t._start >= -len(tasks) - 1, t._start <= H, t._end >= -len(tasks) - 1, t._end <= H)
+    count(summary, "run_c05")
+    summary["nontrivial"].append("run" + str(hash(str(script))))
+    checked = 0
+    for _ in range(8 if rng.random() < 0.8 else 25):
+        if spec_solver.check() != z3.sat:
+            break
+        m = spec_solver.model()
+        pins, desc, block = [], {}, []
+        for t in tasks:
+            sched = True
+            if t.optional:
+                sched = z3.is_true(m.eval(t._scheduled, model_completion=True))
+                pins.append(t._scheduled == sched)
+                block.append(t._scheduled != sched)
+            desc[t.name] = {"scheduled": sched}
+            if sched:
+                for v in [t._start, t._end] + ([t._duration] if hasattr(t, "_duration") else []):
+                    val = m.eval(v, model_completion=True)
+                    pins.append(v == val)
+                    block.append(v != val)
+                desc[t.name].update(start=m.eval(t._start, model_completion=True).as_long(),
+                                    end=m.eval(t._end, model_completion=True).as_long())
+        for sel in real.selects():
+            for w, flag in sel._selection_dict.items():
+                val = z3.is_true(m.eval(flag, model_completion=True))
+                pins.append(flag == val)
+                block.append(flag != val)
+        for c in real.problem.constraints.values():
+            if c.optional:
+                val = z3.is_true(m.eval(c._applied, model_completion=True))
+                pins.append(c._applied == val)
+                block.append(c._applied != val)
+        # dynamic busy intervals of scheduled tasks are part of the schedule
+        for t in tasks:
+            if desc[t.name]["scheduled"]:
+                for res in t._required_resources:
+                    lo, up = res._busy_intervals[t]
+                    if "_maybe_busy_" not in lo.decl().name():
+                        pins += [lo == m.eval(lo, model_completion=True), up == m.eval(up, model_completion=True)]
+        hv = m.eval(real.problem._horizon, model_completion=True)
+        pins.append(real.problem._horizon == hv)
+        chk = z3.Solver()
+        chk.set("timeout", 10000)
+        chk.add(base)
+        chk.add(pins)
+        r = chk.check()
+        checked += 1
+        if r == z3.unsat:
+            return {"what": "a schedule that satisfies the documented meaning of every element is rejected by the real "
+                            "constraint system (pinning it is unsatisfiable)", "schedule": desc, "horizon": str(hv),
+                    "n_pins": len(pins)}
+        spec_solver.add(z3.Or(block) if block else z3.BoolVal(False))
+    count(summary, f"run_c05_schedules_pinned_{min(checked, 25)}")
+    return None
